@@ -69,9 +69,34 @@ LEVEL = {
     "C07": "model_checking",
     "C19": "model_checking",
     "C12": "model_checking",
+    "C13": "proof",
+    "C14": "model_checking",
+    "C16": "model_checking",
+    "C11": "model_checking",
+    "C18": "model_checking",
 }
 
+MIRSYM_ASSUMPTIONS = [
+    "rustc nightly's -Zunpretty=mir dump of /repo's current sources is the code that is executed (dev profile semantics, overflow checks on)",
+    "lib/mirsym parser/interpreter: unknown statements or callees abort the check (exit 2), nothing is skipped silently",
+    "z3 4.8.12 decides every query; the full query log is re-run through cvc5 1.0 and any disagreement or solver error makes the run inconclusive",
+    "unwinding (cleanup) blocks are not executed",
+]
+
 ASSUMPTIONS = {
+    "C13": MIRSYM_ASSUMPTIONS + [
+        "wrapped backend methods are uninterpreted functions of (world, inner value, parameters); equality of results and of the world token is what 'transparent' means",
+        "`<VfsEntry as Entry>::upcast` composed after follow() is modelled as the identity",
+        "counterexamples are replayed by kani/c13_replay.rs (native differential fixture over all 52 + 18 methods on both backends)",
+    ],
+    "C14": MIRSYM_ASSUMPTIONS + [
+        "std::path::{Path,PathBuf,Components,Component} are bounded sequence models (environment stubs), validated against real std natively",
+        "inputs are component sequences (the image of every path string under std's tokeniser); spelling-only differences are outside the claim",
+    ],
+    "C16": MIRSYM_ASSUMPTIONS + [
+        "std path types and Vec<Component> are bounded sequence models (environment stubs), validated against real std natively",
+        "inputs: clean absolute paths = RootDir followed by Normal components with symbolic names over a 3-element alphabet",
+    ],
     "C07": [
         "Kani 0.68 / CBMC 6.11 (CaDiCaL) model of the dev profile (overflow checks on); rustc's codegen to goto-C is trusted",
         "oracle is the real std::io::Cursor<Vec<u8>> compiled into the same harness",
